@@ -40,7 +40,7 @@ CHECKS = {
         ref='3/C07'),
     'C04': dict(
         technique='membership invariant on every entity object the observation walk touches + differential non-interference monitor between three real databases (insiders / + outsiders / outsiders removed), classified by the reference model',
-        text='Runtime monitoring: for 15 selection/expand settings over a universe of related lexicons with colliding identifiers, the full public-API observation of Wordnet(S, expand=E) is taken in a database holding only S, its expand set and needed bases, again after every other lexicon (other versions, unselected extensions of members of S, unrelated lexicons sharing ids/forms/ILIs) was added, and again after they were removed; the three observations must be identical and every returned entity must belong to S; the unrestricted default mode is compared with the model's family-scoped view on the full database. Held on K universes.',
+        text='Runtime monitoring: for 15 selection/expand settings over a universe of related lexicons with colliding identifiers, the full public-API observation of Wordnet(S, expand=E) is taken in a database holding only S, its expand set and needed bases, again after every other lexicon (other versions, unselected extensions of members of S, unrelated lexicons sharing ids/forms/ILIs) was added, and again after they were removed; the three observations must be identical and every returned entity must belong to S; the unrestricted default mode is compared with the family-scoped view of the model on the full database. Held on K universes.',
         note='Which extensions/dependencies of a lexicon are installed is dependency bookkeeping (C05), masked here. Known finding: tags/pronunciations have no owner column.',
         ref='3/C04'),
     'C05': dict(
